@@ -3,7 +3,7 @@ from __future__ import annotations
 
 import json
 
-from . import drv_auto, drv_conn, drv_fcs, drv_hdlc, drv_p1, drv_proto, drv_readers
+from . import drv_auto, drv_conn, drv_fcs, drv_hdlc, drv_obis, drv_p1, drv_proto, drv_readers
 
 CHECKS = {
     "C01": (drv_hdlc.run_c01, "model_checking"),
@@ -20,6 +20,7 @@ CHECKS = {
     "C17": (drv_conn.run_c17, "model_checking"),
     "C18": (drv_conn.run_c18, "model_checking"),
     "C19": (drv_readers.run_c19, "model_checking"),
+    "C20": (drv_obis.run_c20, "model_checking"),
 }
 
 REPLAYERS = {
@@ -37,6 +38,7 @@ REPLAYERS = {
     "C17": drv_conn.replay_c17,
     "C18": drv_conn.replay_c18,
     "C19": drv_readers.replay_c19,
+    "C20": drv_obis.replay_c20,
 }
 
 
